@@ -629,7 +629,7 @@ class IH5Record(IH5Group):
 
         self._fixes_after_merge(cfile, ub)  # for subclass hooks
 
-        self._set_ublock(-1, ub)
+        # NOTE: the new user block belongs to the merged container, not to this record
         ub.save(cfile)
         return cfile
 
